@@ -97,6 +97,7 @@ def _run_case(case):
     if case.get('ber_first'):
         # (the order in which a process uses the three codecs is not the library's business: here BER and CER go first)
         lib.encode('BER', obj, defMode=defMode, maxChunkSize=chunk)
+        lib.encode('BER', obj)
         lib.encode('CER', obj)
     e = lib.encode('DER', obj)
     if not e.ok:
